@@ -198,6 +198,20 @@ def _cases(draw):
         d.tag("concurrent")
         if case["concurrent"]["k"] >= 3:
             d.tag("concurrent.k>=3")
+    if "concurrent" not in case and d.bool(0.3):
+        # a HISTORY of calls on one client that share the caller's kwargs object (as users do with a common
+        # headers dict); the other calls' variables are drawn independently (with / without uploads)
+        others = []
+        for _ in range(d.int(1, 3)):
+            v = {}
+            for _i in range(d.int(0, 3)):
+                v[d.draw(st.sampled_from(["id", "input", "file", "files", "data"]))] = gen_tree(d, 0, "top")
+            others.append(v)
+        case["history"] = {"others": others, "position": d.int(0, len(others))}
+        d.tag("history")
+        if "$upload" in json.dumps(others) and "headers" in kwargs:
+            # a caller-supplied Content-Type is only meaningful on the JSON path (see above)
+            kwargs["headers"] = {k: v for k, v in kwargs["headers"].items() if k.lower() != "content-type"}
     case["features"] = sorted(d.features)
     return case
 
@@ -479,13 +493,55 @@ def run_concurrent(case, variant):
     return bad
 
 
+def run_history(case, variant):
+    """sequence of calls on ONE client sharing ONE kwargs object; every request must equal the request the same
+    call sends alone on a fresh client with fresh kwargs, and the caller's kwargs must come back unchanged"""
+    import copy
+
+    bad = []
+    seq = list(case["history"]["others"])
+    seq.insert(case["history"]["position"], case["variables"])
+    shared_kwargs = copy.deepcopy(case["kwargs"])
+    before = copy.deepcopy(shared_kwargs)
+    captured = []
+    if variant[3]:
+        async def ahandler(request):
+            await request.aread()
+            captured.append(request)
+            return httpx.Response(200, json={"data": {"ok": True}})
+        client = bc.make(variant, ahandler)
+    else:
+        def handler(request):
+            request.read()
+            captured.append(request)
+            return httpx.Response(200, json={"data": {"ok": True}})
+        client = bc.make(variant, handler)
+    for i, vspec in enumerate(seq):
+        uploads = make_uploads(case)
+        variables = None if vspec is None else {k: instantiate(v, uploads) for k, v in vspec.items()}
+        n0 = len(captured)
+        kw = dict(shared_kwargs)  # the caller passes the same header dict object every time
+        resp, exc = bc.execute(client, variant, case["query"], case["operation_name"], variables, kw)
+        solo_case = dict(case, variables=vspec)
+        solo_case.pop("history", None)
+        cap, _r, exc2 = run_solo(solo_case, variant)
+        if (exc is None) != (exc2 is None) or (len(captured) > n0) != bool(cap):
+            bad.append(("history_outcome", f"step {i}: in sequence {exc!r}, alone {exc2!r}"))
+        elif cap and canon_request(cap[0]) != canon_request(captured[n0]):
+            bad.append(("history_request", f"step {i} of a call sequence sharing the caller's kwargs sent a different request than alone: "
+                                           f"{canon_request(captured[n0])[:200]} vs {canon_request(cap[0])[:200]}"))
+    if shared_kwargs != before:
+        bad.append(("caller_kwargs_mutated", f"the caller's kwargs were changed by the calls: {shared_kwargs} (before {before})"))
+    return bad
+
+
 def run_case(case, scratch):
     failures, nts, units = [], [], 0
     feats = set(case["features"])
     silent = any(f.startswith("silent.") for f in feats)
     h = hashlib.sha256(json.dumps({k: case[k] for k in ("query", "operation_name", "variables", "kwargs", "uploads")},
                                   sort_keys=True, default=repr).encode()).hexdigest()[:14]
-    nontrivial = bool(feats & {"upload.nested", "model.unset_fields", "concurrent.k>=3"})
+    nontrivial = bool(feats & {"upload.nested", "model.unset_fields", "concurrent.k>=3", "history"})
     canon = {}
     outcomes = {}
     for variant in bc.VARIANTS:
@@ -510,6 +566,12 @@ def run_case(case, scratch):
         if not silent:
             for clause, msg in check_request(case, captured[0]):
                 failures.append({"clause": clause, "sig": variant[0] if clause in ("json_body", "operations") else "", "msg": f"{variant[0]}: {msg}"[:500]})
+        if "history" in case and not silent:
+            try:
+                for clause, msg in run_history(case, variant):
+                    failures.append({"clause": clause, "sig": "", "msg": f"{variant[0]}: {msg}"[:500]})
+            except BaseException as e:  # noqa: BLE001
+                failures.append({"clause": "history_crash", "sig": type(e).__name__, "msg": f"{variant[0]}: {e!r}"[:300]})
         if "concurrent" in case and variant[0] in ("async", "sync", "async_otel_rec", "sync_otel_rec"):
             try:
                 for clause, msg in run_concurrent(case, variant):
